@@ -306,6 +306,13 @@ def _post_probes(req, trace):
                             'WHERE id = %s', [v.pk])
                 raw = cur.fetchone()[0]
             p['reserialise_equal'] = (field._dumps(stored) == raw)
+            try:
+                import json as _json
+                p['reserialise_content_equal'] = (
+                    _json.loads(field._dumps(stored)[5:]) ==
+                    _json.loads(raw[5:]))
+            except Exception:
+                p['reserialise_content_equal'] = None
             p['target_text_equal'] = (field._dumps(target) == raw)
             clone = stored.clone()
             p['clone_eq'] = bool(clone == stored)
